@@ -118,7 +118,7 @@ fn run_case(seed: u64, index: u64, rep: &mut Report, kernel_thread: bool) {
     };
     let sq = ring.sq();
     let pool_size = *rng.pick(&[2u16, 4, 8]);
-    let pool = if rng.chance(2, 3) { alloc::a10(|| ReadBufPool::new(sq.clone(), pool_size, 64)).ok() } else { None };
+    let pool = if rng.chance(2, 3) { alloc::a10(|| ReadBufPool::new(sq.clone(), pool_size, [64u32, 48, 100, 24][(index % 4) as usize])).ok() } else { None };
     // A pool operation was abandoned (dropped in flight, or a multishot dropped with results nobody
     // collected): buffers lost that way are known finding D5 and make the conservation check below moot.
     let mut pool_op_abandoned = false;
